@@ -463,7 +463,8 @@ func typeOfJSONValue(v any) ExprType {
 	case map[string]any:
 		props := make(map[string]ExprType, len(v))
 		for k, v := range v {
-			props[k] = typeOfJSONValue(v)
+			// Property names are case-insensitive. Keys of object types are in lower case.
+			props[strings.ToLower(k)] = typeOfJSONValue(v)
 		}
 		return NewStrictObjectType(props)
 	case nil:
